@@ -46,8 +46,15 @@ func snapshot(x any) J {
 	case reflect.Bool:
 		return J{"k": "bool", "v": rv.Bool()}
 	case reflect.Int, reflect.Int8, reflect.Int16, reflect.Int32, reflect.Int64:
+		if n := rv.Int(); n > 1<<31-1 || n < -(1<<31-1) {
+			neg := n < 0
+			return J{"k": "big", "neg": neg, "digits": bytesJSON(strings.TrimPrefix(fmt.Sprint(n), "-"))}
+		}
 		return J{"k": "int", "v": int(rv.Int())}
 	case reflect.Uint, reflect.Uint8, reflect.Uint16, reflect.Uint32, reflect.Uint64:
+		if n := rv.Uint(); n > 1<<31-1 {
+			return J{"k": "big", "neg": false, "digits": bytesJSON(fmt.Sprint(n))}
+		}
 		return J{"k": "int", "v": int(rv.Uint())}
 	case reflect.Float32, reflect.Float64:
 		n, d := dyadic(rv.Float())
